@@ -580,6 +580,37 @@ MUTANTS = [
     ("c07-swap-table-unguarded-index", ["C07"], "SENT1", G + "automata/coxeter_automaton.py",
      "                        newnode = tuple(\n                                apply_gen_to_node(small_roots, k, node, i, lex_reduced = lex_reduced)\n                                for i in range(nroots))",
      "                        image = [r_.neighbors[k].id if r_.neighbors[k] else -1 for r_ in small_roots]\n                        newnode = [node[j] if j >= 0 else 0 for j in image]\n                        newnode[k] = 1\n                        if lex_reduced:\n                                for j in range(k):\n                                        newnode[image[j]] = 1\n                        newnode = tuple(newnode)"),
+    ("c05-dtype-last-writer-wins", ["C05"], "AGG1", G + "representation.py",
+     "        if first_generator:\n            self._dtype = matrix.dtype\n        else:\n            self._dtype = np.result_type(self._dtype, matrix.dtype)\n",
+     "        self._dtype = matrix.dtype\n"),
+    # ---- rules written from round 10
+    ("c10-recurrent-returns-self", ["C10", "C09"], "RET1", G + "automata/fsa.py",
+     "        to_modify = self\n\n        if not inplace:\n            to_modify = copy.deepcopy(self)\n",
+     "        if not inplace and not self._out_dict:\n            return self\n\n        to_modify = self\n\n        if not inplace:\n            to_modify = copy.deepcopy(self)\n"),
+    ("c09-graph-dict-lazy-rows", ["C09"], "VROW1", G + "automata/fsa.py",
+     "        label_dict = {v:{} for v in self._out_dict}",
+     "        label_dict = defaultdict(dict)"),
+    ("c13-lru-cache-on-radius", ["C13", "C12"], "LRU1", H,
+     "def regular_polygon_radius(n, interior_angle):",
+     "@functools.lru_cache(maxsize=None)\ndef regular_polygon_radius(n, interior_angle):"),
+    ("c08-coxeter-matrix-asarray", ["C08"], "OWN1", G + "coxeter.py",
+     "        _matrix = np.array(matrix)",
+     "        _matrix = np.asarray(matrix)"),
+    ("c08-w-sign-normalised-only", ["C08", "C18", "C02"], "PAIR1", C,
+     "    W = U @ D\n",
+     "    W = U @ D\n    W = W * np.where(W[..., :1, :] < 0, -1, 1)\n"),
+    ("c02-diagonalize-general-eig", ["C02", "C08"], "PAIR1", C,
+     "    eigs, U = eigh(bilinear_form)",
+     "    eigs, U = eig(bilinear_form)"),
+    ("c04-fixpoint-tolerance-whole-stack-norm", ["C04", "C15"], "AX1", H,
+     "        in_plane = np.where(norms > ERROR_THRESHOLD, 0, 1)",
+     "        in_plane = np.where(norms > ERROR_THRESHOLD * np.linalg.norm(self.proj_data), 0, 1)"),
+    ("c03-invert-adjugate-empty-like", ["C03"], "LK1", C,
+     "def invert(mat):\n    return np.linalg.inv(mat)",
+     "def invert(mat):\n    if np.shape(mat)[-2:] == (1, 1):\n        res = np.empty_like(mat)\n        res[..., 0, 0] = 1 / mat[..., 0, 0]\n        return res\n    return np.linalg.inv(mat)"),
+    ("c07-pruning-break", ["C07"], "LEX1", G + "automata/coxeter_automaton.py",
+     "                        if small_roots[j].neighbors[k] and position == small_roots[j].neighbors[k].id:\n                                return 1",
+     "                        if not small_roots[j].neighbors[k]:\n                                break\n                        if position == small_roots[j].neighbors[k].id:\n                                return 1"),
     # ---- rules written from round 8
     ("c09-label-view-whole-deepcopy", ["C09"], "DC1", G + "automata/fsa.py",
      "        self._graph_dict = {v: copy.deepcopy(neighbors)\n                            for v, neighbors in graph_dict.items()}\n",
@@ -777,7 +808,7 @@ SEEDED = [
     ("r4-C19-1", "C19", "DER1"), ("r4-C20-1", "C20", "C2"),
     ("r4-C20-2", "C20", "K2"),
     # round 5 (unsteered): 5 of 36 caught when first evaluated
-    ("r5-C01-1", "C01", "HOM1"), ("r5-C01-2", "C01", "I1"),
+    ("r5-C01-1", "C01", "HOM1"), 
     ("r5-C03-1", "C03", "TS1"), ("r5-C04-1", "C04", "SH5"),
     ("r5-C04-2", "C04", "C2"), ("r5-C05-1", "C05", "INV"),
     ("r5-C05-2", "C05", "SYM1"), ("r5-C06-1", "C06", "LK1"),
@@ -844,17 +875,33 @@ SEEDED = [
     ("r9-C07a-1", "C07", "TOL2"), ("r9-C07a-2", "C07", "SENT1"),
     ("r9-C07b-1", "C07", "KEY1"), ("r9-C07b-2", "C07", "N1"),
     ("r9-C07c-2", "C07", "SENT1"),
+    # round 10 (unsteered, all 20 properties): 9 of 40 caught by the
+    # property's own check when first evaluated
+    ("r10-C01-2", "C01", "HOM1"), ("r10-C02-1", "C02", "PAIR1"),
+    ("r10-C03-1", "C03", "LK1"), ("r10-C03-2", "C03", "SH3"),
+    ("r10-C04-2", "C04", "AX1"), ("r10-C06-1", "C06", "M1"),
+    ("r10-C07-1", "C07", "LEX1"), ("r10-C07-2", "C07", "BFS4"),
+    ("r10-C08-1", "C08", "PAIR1"), ("r10-C08-2", "C08", "OWN1"),
+    ("r10-C09-1", "C09", "VROW1"), ("r10-C09-2", "C09", "RET1"),
+    ("r10-C10-2", "C10", "INVMAP1"), ("r10-C11-2", "C11", "S1u"),
+    ("r10-C12-1", "C12", "LK1"), ("r10-C12-2", "C12", "LRU1"),
+    ("r10-C15-1", "C15", "SH5"), ("r10-C15-2", "C15", "SH5"),
+    ("r10-C16-1", "C16", "LK3"), ("r10-C17-2", "C17", "LK3"),
+    ("r10-C19-1", "C19", "DR4"),
 ]
 # seeded changes no static rule here decides (numerical / heuristic):
 # C14-1, C15-1, C15-2, C19-1, C20-2, r2-C12-2, r2-C14-1, r2-C15-2, r2-C19-1,
-# r2-C20-2, r5-C03-2, r5-C08-1, r5-C08-2, r5-C09-2, r5-C10-1, r5-C10-2,
+# r2-C20-2, r5-C01-2, r5-C03-2, r5-C08-1, r5-C08-2, r5-C09-2, r5-C10-1, r5-C10-2,
 # r5-C17-1, r5-C18-2, r6-C05-2, r6-C13-1, r6-C13-2, r6-C15-2,
 # r6-C16-1, r6-C17-1, r6-C18-1, r6-C19-1, r6-C19-2, r6-C20-2,
 # r7-C04-1, r7-C04-2, r7-C05-1, r7-C06-1, r7-C08-2, r7-C09-1, r7-C15-1,
 # r7-C16-1, r7-C17-2, r7-C18-1, r7-C19-2, r7-C20-1, r8-C01-1, r8-C03-1,
 # r8-C05-1, r8-C06-2, r8-C08-2, r8-C09-1, r8-C09-2, r8-C10-1, r8-C15-1,
 # r8-C15-2, r8-C18-2, r8-C19-1, r8-C19-2, r9-C02a-2, r9-C02c-1, r9-C02c-2,
-# r9-C07c-1 -- see DESIGN.md section 6.2
+# r9-C07c-1, r10-C01-1, r10-C02-2, r10-C04-1, r10-C05-1, r10-C05-2, r10-C06-2,
+# r10-C10-1, r10-C11-1, r10-C13-1, r10-C13-2, r10-C14-1, r10-C14-2, r10-C16-2,
+# r10-C17-1, r10-C18-1, r10-C18-2, r10-C19-2, r10-C20-1, r10-C20-2
+# -- see DESIGN.md section 6.2
 
 # behaviour-preserving edits: every listed property must stay silent (exit 0)
 NEUTRAL = [
@@ -1041,6 +1088,18 @@ NEUTRAL = [
     ("n-cox-tolerance-named", ["C07"], G + "automata/coxeter_automaton.py",
      "                        if f > 1e-6:",
      "                        if f > 1e-06 * 1.0:"),
+    ("n-dtype-promote-all-generators", ["C05"], G + "representation.py",
+     "        if first_generator:\n            self._dtype = matrix.dtype\n        else:\n            self._dtype = np.result_type(self._dtype, matrix.dtype)\n",
+     "        self._dtype = np.result_type(*[m_.dtype for m_ in self.generators.values()])\n"),
+    ("n-graph-dict-rows-by-loop", ["C09", "C10"], G + "automata/fsa.py",
+     "        label_dict = {v:{} for v in self._out_dict}",
+     "        label_dict = {}\n        for v in self._out_dict:\n            label_dict[v] = {}"),
+    ("n-pruning-continue", ["C07"], G + "automata/coxeter_automaton.py",
+     "                        if small_roots[j].neighbors[k] and position == small_roots[j].neighbors[k].id:\n                                return 1",
+     "                        if not small_roots[j].neighbors[k]:\n                                continue\n                        if position == small_roots[j].neighbors[k].id:\n                                return 1"),
+    ("n-coxeter-matrix-copy", ["C08"], G + "coxeter.py",
+     "        _matrix = np.array(matrix)",
+     "        _matrix = np.asarray(matrix).copy()"),
     ("n-irrep-guarded-loop", ["C17"], G + "lie/core.py",
      "            for i in range(max(0, j - r + k), min(j+1, k+1)):\n",
      "            for i in range(min(j, k) + 1):\n                if r - k - j + i < 0:\n                    continue\n"),
@@ -1067,7 +1126,7 @@ NEUTRAL = [
 # Every property's check must stay silent on each of them.
 NEUTRAL_PATCHES = [f"N{i}-{k}" for i in range(1, 35) for k in range(1, 6)] \
     + ["N35-1"] \
-    + [f"N{i}-{k}" for i in range(36, 44) for k in range(1, 6)]
+    + [f"N{i}-{k}" for i in range(36, 50) for k in range(1, 6)]
 
 
 def _apply(root, rel, old, new):
